@@ -380,8 +380,9 @@ def _bounded_wait_loop(fb, fn, F, prod, need_max=True):
             l_size, r_size = _is_size_read(fn, x['lhs'], F), _is_size_read(fn, x['rhs'], F)
             l_max = (fn.sn(x['lhs']) or {}).get('k') == 'member' and (fn.sn(x['lhs']) or {}).get('name') == F['max']
             r_max = (fn.sn(x['rhs']) or {}).get('k') == 'member' and (fn.sn(x['rhs']) or {}).get('name') == F['max']
-            full_when_true = (l_size and r_max and x['op'] in ('>=', '>')) or (l_max and r_size and x['op'] in ('<=', '<'))
-            full_when_false = (l_size and r_max and x['op'] in ('<', '<=')) or (l_max and r_size and x['op'] in ('>', '>='))
+            # the queue is full exactly when size() >= max: `size() > max` lets one element too many in before the producer blocks
+            full_when_true = (l_size and r_max and x['op'] == '>=') or (l_max and r_size and x['op'] == '<=')
+            full_when_false = (l_size and r_max and x['op'] == '<') or (l_max and r_size and x['op'] == '>')
             if (full_when_true and sense) or (full_when_false and not sense):
                 loopcond = True
         if timed and inloop and (maxg or not need_max) and loopcond:
@@ -698,6 +699,46 @@ def pool_rules(fb, R):
     if not fb.fns(P + '::worker_thread'):
         R.broken('Pool::worker_thread not found')
 
+    # P7: submit() is a forwarding function (template <typename TFunction> submit(TFunction&& func)): the callable is handed on with
+    # std::forward, never std::move -- an lvalue callable (submitted again later, or used by the caller afterwards) must be copied
+    nsub7 = 0
+    for fn in fb.fns(P + '::submit'):
+        if not fn.params:
+            continue
+        pd0 = fn.params[0]['d']
+        moved = [n for n in fn.all_nodes() if n.get('k') == 'call' and n.get('q') == 'std::move' and n.get('args')
+                 and (fn.sn(n['args'][0]) or {}).get('k') == 'var' and fn.sn(n['args'][0]).get('d') == pd0]
+        fwd = [n for n in fn.all_nodes() if n.get('k') == 'call' and n.get('q') == 'std::forward' and n.get('args')
+               and (fn.sn(n['args'][0]) or {}).get('k') == 'var' and fn.sn(n['args'][0]).get('d') == pd0]
+        nsub7 += 1
+        R.check(not moved and len(fwd) == 1, 'P7-submit-forwards-callable', P + '::submit#func', fn.site,
+                'submit(TFunction&& func) must pass `func` on with std::forward<TFunction> exactly once (std::move(func) steals an lvalue callable '
+                'from the caller: a second submit of the same object runs a moved-from copy)')
+    if nsub7 == 0:
+        R.broken('Pool::submit not found')
+
+    # P8: the default pool is an object with static storage duration (its destructor pushes the stop tasks and joins the workers at exit);
+    # a leaked heap object never runs ~Pool: queued tasks are lost when main() returns
+    for fn in fb.fns(P + '::default_instance'):
+        rets = [n for n in fn.all_nodes() if n.get('k') == 'return' and 'sub' in n]
+        ok = bool(rets)
+        for r in rets:
+            v = fn.sn(r['sub'])
+            isobj = False
+            if v is not None and v.get('k') == 'var':
+                for dn in fn.all_nodes():
+                    if dn.get('k') == 'decl':
+                        for dv in dn.get('vars', []):
+                            if dv['d'] == v.get('d') and dv.get('static') and dv.get('tC') == P:
+                                isobj = True
+            ok = ok and isobj
+        news = [n for n in fn.all_nodes() if n.get('k') == 'new']
+        R.check(ok and not news, 'P8-default-pool-is-destroyed-at-exit', P + '::default_instance', fn.site,
+                'default_instance() must return a function-local static Pool OBJECT (destroyed at exit: stop tasks pushed, workers joined); '
+                'a pointer to a heap-allocated pool is never destroyed')
+    if not fb.fns(P + '::default_instance'):
+        R.broken('Pool::default_instance not found')
+
     # P2 function_wrapper::impl_type::call / impl_base::call
     for fn in fb.fns(FW + '::impl_base::call'):
         rets = [n for n in fn.all_nodes() if n.get('k') == 'return' and 'sub' in n]
@@ -889,6 +930,8 @@ def run(ctx):
     R.expect('P4-submit-future-before-push', 1)
     R.expect('P5-spawn-failure-shuts-workers-down', 1)
     R.expect('P6-task-released-before-next-wait', 1)
+    R.expect('P7-submit-forwards-callable', 1)
+    R.expect('P8-default-pool-is-destroyed-at-exit', 1)
 
 
 def _selftest_queue(fb, R):
